@@ -1,26 +1,35 @@
 """C19 - I/O failures are reported, lose only the failing write, and logging recovers."""
 import gen_flw as g
 
-CLAIM = ("Decided per explored history and fault sequence: the implementation runs with injected failures of its file-system calls "
-         "(open, rename, remove, read_dir, metadata, gzip create/open/copy/finish, write - one oracle bit per call) and must (1) return "
-         "normally from every operation, (2) leave a stream that consists of records only, in logging order, containing every record "
-         "that was written while no failure was pending (before the first and after the last injected failure), and (3) report on the "
-         "error channel whenever a record is missing; this oracle is applied to the implementation's final directory. The model "
-         "(Flw/Model.v) consumes the same fault oracle call by call, and the correspondence check compares results, error codes and "
-         "directories after every step. Proved in Coq: with an exhausted fault oracle a model primitive behaves as its fault-free "
-         "version (C19_no_fault_no_failure) and a failed write leaves the file untouched (C19_failed_write_no_effect). The "
-         "history-level theorem is proved for a writer without rotation in direct mode (C19_faults_norotation: for every fault "
-         "sequence and record list the file holds exactly the records whose open and write succeeded, every loss is reported, "
-         "C19_lost_only_failed, C19_recovery) and for a ROTATING writer (Numbers naming, size criterion, direct mode) for EVERY fault "
-         "oracle and record list: directory, error channel (exact codes) and remaining oracle are what the executable specification simr "
-         "computes and every call returns normally (C19_rot_faults_rotation); a record whose own log call met no failure is in the stream, "
-         "a missing record met one and reported EWrite; the stream is an in-order subsequence of the records; missing records = number of "
-         "EWrite reports <= number of reports (C19_rot_lost_only_around_failures, C19_rot_loss_is_reported); once the oracle holds no more "
-         "failures nothing is reported, every further record is written and rotation follows the fault-free size rule again "
-         "(C19_rot_recovery_spec, C19_rot_recovery_run). The analysis behind simr (what a failing rename / create / listing / write does) "
-         "is in Flw/FaultRotSpec.v. With cleanup, buffering and the other namings it is not proved: partial.")
-THEOREMS = ["C19_rot_faults_rotation", "C19_rot_lost_only_around_failures", "C19_rot_loss_is_reported", "C19_rot_recovery_spec", "C19_rot_recovery_run",
-            "C19_faults_norotation", "C19_lost_only_failed", "C19_recovery", "C19_no_fault_no_failure", "C19_failed_write_no_effect"]
+CLAIM = ('Decided per explored history and fault sequence: the implementation runs with injected failures of its file-system '
+         'calls (open, rename, remove, read_dir, metadata, gzip create/open/copy/finish, write - one oracle bit per call) and '
+         'must (1) return normally from every operation, (2) leave a stream that consists of records only, in logging order, '
+         'containing every record that was written while no failure was pending (before the first and after the last injected '
+         'failure), and (3) report on the error channel whenever a record is missing; this oracle is applied to the '
+         "implementation's final directory. The model (Flw/Model.v) consumes the same fault oracle call by call, and the "
+         'correspondence check compares results, error codes and directories after every step. Proved in Coq: with an exhausted '
+         'fault oracle a model primitive behaves as its fault-free version (C19_no_fault_no_failure) and a failed write leaves '
+         'the file untouched (C19_failed_write_no_effect). The history-level theorem is proved for a writer without rotation in '
+         'direct mode (C19_faults_norotation: for every fault sequence and record list the file holds exactly the records whose '
+         'open and write succeeded, every loss is reported, C19_lost_only_failed, C19_recovery) and for a ROTATING writer '
+         '(Numbers naming, size criterion, direct mode) for EVERY fault oracle and record list: directory, error channel (exact '
+         'codes) and remaining oracle are what the executable specification simr computes and every call returns normally '
+         '(C19_rot_faults_rotation); a record whose own log call met no failure is in the stream, a missing record met one and '
+         'reported EWrite; the stream is an in-order subsequence of the records; missing records = number of EWrite reports <= '
+         'number of reports (C19_rot_lost_only_around_failures, C19_rot_loss_is_reported); once the oracle holds no more '
+         'failures nothing is reported, every further record is written and rotation follows the fault-free size rule again '
+         '(C19_rot_recovery_spec, C19_rot_recovery_run). The analysis behind simr (what a failing rename / create / listing / '
+         'write does) is in Flw/FaultRotSpec.v. With cleanup, buffering and the other namings it is not proved: partial. '
+         'BUFFERED modes (proved, without rotation and with rotation under Numbers naming): for every fault oracle and history '
+         'of writes, flushes, shutdown and drop, file, buffer, error channel (exact codes), remaining oracle and result codes '
+         'are what the executable specification computes (C19_buf_faults_buffered, C19_buf_rot_faults); the file is an in-order '
+         'subsequence of the records, what was written out stays, every operation that loses something reports and met a failing '
+         'call, a failing flush inside a log call loses the incoming record and keeps the buffered ones (C19_buf_loss_bounded, '
+         'C19_buf_accepted, C19_buf_rot_loss_bounded); after the last failure everything is written and nothing more is reported '
+         "(C19_buf_recovery, C19_buf_rot_recovery). The direct-mode statement 'missing records = reported errors' is false for "
+         'buffered modes - a failing final flush loses the whole buffer for two reports (C19_buf_more_lost_than_reported, by a '
+         "counterexample evaluated in Coq) - the proved form is 'every losing operation reports'. ")
+THEOREMS = ["C19_rot_faults_rotation", "C19_rot_lost_only_around_failures", "C19_rot_loss_is_reported", "C19_rot_recovery_spec", "C19_rot_recovery_run", "C19_faults_norotation", "C19_lost_only_failed", "C19_recovery", "C19_no_fault_no_failure", "C19_failed_write_no_effect", "C19_buf_faults_buffered", "C19_buf_loss_bounded", "C19_buf_accepted", "C19_buf_recovery", "C19_buf_more_lost_than_reported", "C19_buf_rot_faults", "C19_buf_rot_loss_bounded", "C19_buf_rot_recovery"]
 TRUSTED = ["modelled, not verified: which calls can fail and how the code reacts is tied by the correspondence; injected failures are "
            "io::ErrorKind::Other returned before the call (the call is then not made); BufWriter keeps unwritten bytes on a failed flush"]
 ASSUMPTIONS = ["failures are injected at the hook points (immediately before each file-system call), never in the middle of a call"]
